@@ -43,6 +43,8 @@ func checkC04(p *Prog, r *Report) {
 		return false
 	})
 	didQueryRules(p, r, m, "C04", false, true, false)
+	// the sequence history survives a genesis export/import: every entry (tombstones included) is imported, unchanged, under its key
+	didGenesisRules(p, r, m, "C04")
 	checkInitGenesisCallers(p, r, "C04", "x/did")
 	wireKeyOwnership(p, r, BuildWire(p), "C04", "did", []string{"x/did/keeper.NewKeeper"}, "DID documents and sequences")
 }
@@ -81,6 +83,8 @@ func checkC11(p *Prog, r *Report) {
 		return false
 	})
 	didQueryRules(p, r, m, "C11", false, false, true)
+	// genesis import keeps the binding: every entry is stored whole under the very key it was exported under
+	didGenesisRules(p, r, m, "C11")
 	checkInitGenesisCallers(p, r, "C11", "x/did")
 	wireKeyOwnership(p, r, BuildWire(p), "C11", "did", []string{"x/did/keeper.NewKeeper"}, "DID documents")
 	r.Note("C11-D3: GenesisState.Validate checks key and document validity separately and does not compare the key with Document.Id (genesis files are trusted input; not a violation of the property as stated)")
